@@ -224,12 +224,22 @@ func c01(r *mon.Run) {
 		}})
 	// awkward member names (syntax look-alikes, delimiters and escapes, dots with a nested decoy) as quoted
 	// identifiers in every position a name can stand in
-	const akForms = 8
+	const akForms = 12
 	ws = append(ws, mon.Workload{Name: "awkward-keys", N: len(awkwardKeys) * akForms,
 		Do: func(i int, t *mon.Tally) {
 			k := awkwardKeys[i/akForms]
 			obj := awkwardDoc(k)
 			K := gen.QField(k)
+			if i%akForms >= 8 {
+				// the same name spelled with \uXXXX for everything that is not printable ASCII (forms 8-10) or with a seeded
+				// mix of raw characters, short escapes and \u escapes (form 11): a quoted identifier is JSON string syntax
+				mode := gen.EncAllU
+				if i%akForms == 11 {
+					mode = gen.EncMixed
+				}
+				q := gen.EncodeString(k, mode, gen.DeriveN(r.Seed, "c01ak", i))
+				K.QSrc = q[1 : len(q)-1]
+			}
 			var tree *gen.Expr
 			var doc interface{} = obj
 			switch i % akForms {
@@ -247,6 +257,12 @@ func c01(r *mon.Run) {
 				tree, doc = gen.Pipe(gen.Field("o"), K), map[string]interface{}{"o": obj}
 			case 6:
 				tree, doc = gen.Chain(gen.Field("o"), gen.StQField(k), gen.StQField(k)), map[string]interface{}{"o": map[string]interface{}{k: obj}}
+			case 8, 11:
+				tree = K
+			case 9:
+				tree, doc = gen.Pipe(gen.Field("o"), gen.MultiList(K, gen.LitVal(k))), map[string]interface{}{"o": obj}
+			case 10:
+				tree, doc = gen.Chain(gen.Paren(gen.Field("o")), gen.StMultiList(K)), map[string]interface{}{"o": obj}
 			default:
 				tree, doc = gen.Chain(gen.Field("labels"), gen.StQField(k)), map[string]interface{}{"labels": obj, "metadata": map[string]interface{}{"labels": obj}}
 			}
@@ -347,6 +363,52 @@ func c01(r *mon.Run) {
 			expr := gen.Spell(tree)
 			cx := &caseCtx{r, t, "core-random", i}
 			res, _, _ := cx.runBoth(tree, expr, doc)
+			c01Account(t, tree, expr, doc, res, i)
+		}})
+	// an index is for lists: on an object (also one whose member names are the spellings of the indices), a string, a number it
+	// is a type mismatch, null; a member is reached by name only
+	numDocs := []interface{}{
+		docs.J(`{"rows":{"0":"zero","1":"one","-1":"minus one","2":"two","00":"x","1.0":"y"},"0":"top zero","1":"top one","-1":"top minus","list":["l0","l1"],"s":"abc","n":10}`),
+		docs.J(`{"rows":[{"0":"a0","1":"a1"},{"0":"b0","-1":"b-1"},["c0","c1"],"str",null],"0":[1,2],"1":{"0":"deep"}}`),
+		docs.J(`{"0":"only zero"}`), docs.J(`["e0",{"0":"in list","1":"x"},"e2"]`), docs.J(`"0123"`),
+	}
+	fld := func(n string) *gen.Expr { return gen.QField(n) }
+	var numTrees []*gen.Expr
+	for _, ix := range []int64{0, 1, -1, 2} {
+		for _, head := range []*gen.Expr{gen.Field("rows"), nil, gen.Field("list"), gen.Field("s"), gen.Field("n"), fld("0"), fld("1")} {
+			numTrees = append(numTrees, gen.Chain(gen.Clone(head), gen.StIndex(ix)), gen.Chain(gen.Clone(head), gen.StIndex(ix), gen.StIndex(0)), gen.Chain(gen.Clone(head), gen.StIndex(ix), gen.StQField("0")),
+				gen.Chain(gen.Clone(head), gen.StQField("0"), gen.StIndex(ix)), gen.MultiList(gen.Chain(gen.Clone(head), gen.StIndex(ix)), gen.Chain(gen.Clone(head), gen.StQField(strconv.FormatInt(ix, 10)))),
+				gen.Pipe(gen.Chain(gen.Clone(head), gen.StIndex(ix)), gen.Chain(nil, gen.StIndex(0))), gen.Chain(gen.Paren(gen.Chain(gen.Clone(head), gen.StIndex(ix))), gen.StQField("1")))
+		}
+	}
+	ws = append(ws, mon.Workload{Name: "indices-on-objects-with-numeric-member-names", N: len(numTrees) * len(numDocs),
+		Do: func(i int, t *mon.Tally) {
+			tree, doc := numTrees[i/len(numDocs)], numDocs[i%len(numDocs)]
+			expr := gen.SpellTight(tree)
+			cx := &caseCtx{r, t, "indices-on-objects-with-numeric-member-names", i}
+			res, _, _ := cx.runBoth(tree, expr, doc)
+			c01Account(t, tree, expr, doc, res, i)
+		}})
+	// the same expression in every layout: a space, a tab, LF, CR, CRLF, runs of them, before the first and after the last token,
+	// each white space character as the FIRST of its run and as a later one
+	layouts := []func(toks []string) string{
+		func(toks []string) string { return strings.Join(toks, "\r\n") }, func(toks []string) string { return strings.Join(toks, "\r") }, func(toks []string) string { return strings.Join(toks, "\n") },
+		func(toks []string) string { return strings.Join(toks, "\t") }, func(toks []string) string { return strings.Join(toks, " \r\n\t ") }, func(toks []string) string { return strings.Join(toks, "\r ") },
+		func(toks []string) string { return strings.Join(toks, "\n\r") }, func(toks []string) string { return "\r\n" + strings.Join(toks, " ") + "\r\n" }, func(toks []string) string { return "\t" + strings.Join(toks, "\t\t") + "\t" },
+		func(toks []string) string { return " " + strings.Join(toks, "  ") + " " }, func(toks []string) string { return "\r" + strings.Join(toks, " ") + "\r" }, func(toks []string) string { return "\n" + strings.Join(toks, "\t\r") + "\n" },
+	}
+	nlay := tierPick(r, 3000, 60000)
+	ws = append(ws, mon.Workload{Name: "white-space-layouts", N: nlay * len(layouts), Batch: 2000,
+		Do: func(i int, t *mon.Tally) {
+			rng := gen.DeriveN(r.Seed, "c01lay", i/len(layouts))
+			g := gen.NewTreeGen(rng)
+			g.Funcs, g.Proj, g.Logic = false, false, false
+			g.MaxDepth = 1 + rng.Intn(4)
+			tree := g.Expr(0, gen.WAny)
+			doc := docs.NewRand(rng).TypedDoc(0)
+			expr := layouts[i%len(layouts)](gen.Tokens(tree, gen.Min))
+			cx := &caseCtx{r, t, "white-space-layouts", i}
+			res, _, _ := cx.runOne(tree, expr, doc)
 			c01Account(t, tree, expr, doc, res, i)
 		}})
 	ws = append(ws, kindPairsWorkload(r, "C01"))
